@@ -53,6 +53,15 @@ type Frame struct {
 	ranges    []*MapIter
 	rangeOf   []*ssa.Range
 	localVars map[string]Val
+	localsOut map[*ssa.BasicBlock]map[string]Val
+	edges       map[*ssa.BasicBlock][]inEdge
+	pendingBack map[*ssa.BasicBlock][]inEdge
+	order       []*ssa.BasicBlock
+	isBack      map[[2]*ssa.BasicBlock]bool
+	unrollK     map[*ssa.BasicBlock]int
+	inUnrolled  map[*ssa.BasicBlock]*ssa.BasicBlock
+	entrySt     *State
+	entryReach  *Term
 	lastRets map[string][]Val
 	lastRetNames map[string]map[string]int
 }
@@ -256,6 +265,14 @@ func (fr *Frame) constVal(c *ssa.Const) Val {
 
 // run executes the frame's function from state st under guard reach and
 // returns the merged results, the exit state and the exit reach.
+type inEdge struct {
+	pred    *ssa.BasicBlock
+	reach   *Term
+	st      *State
+	phiVals []Val             // operands of the target's phis for this edge
+	live    map[ssa.Value]Val // values defined in an unrolled loop and used after it
+}
+
 func (fr *Frame) run(st *State, reach *Term) ([]Val, *State, *Term) {
 	fn := fr.fn
 	b := fr.b()
@@ -266,7 +283,10 @@ func (fr *Frame) run(st *State, reach *Term) ([]Val, *State, *Term) {
 	fr.out = map[*ssa.BasicBlock]*blockEnd{}
 	fr.loopHead = map[*ssa.BasicBlock]*loopState{}
 	fr.callN = map[string]int{}
+	fr.edges = map[*ssa.BasicBlock][]inEdge{}
+	fr.pendingBack = map[*ssa.BasicBlock][]inEdge{}
 	order, backEdges := blockOrder(fn)
+	fr.order = order
 	// loop ordinals by header index
 	var heads []*ssa.BasicBlock
 	headSet := map[*ssa.BasicBlock]bool{}
@@ -281,134 +301,30 @@ func (fr *Frame) run(st *State, reach *Term) ([]Val, *State, *Term) {
 	for i, h := range heads {
 		fr.loops[h] = i
 	}
-	isBack := map[[2]*ssa.BasicBlock]bool{}
+	fr.isBack = map[[2]*ssa.BasicBlock]bool{}
 	for _, e := range backEdges {
-		isBack[e] = true
+		fr.isBack[e] = true
 	}
-
-	for _, blk := range order {
-		var inReach *Term
-		var inSt *State
-		type inEdge struct {
-			pred  *ssa.BasicBlock
-			reach *Term
-			st    *State
-			idx   int
+	// unrolled loops: header -> bound
+	fr.unrollK = map[*ssa.BasicBlock]int{}
+	fr.inUnrolled = map[*ssa.BasicBlock]*ssa.BasicBlock{}
+	for _, h := range heads {
+		if sp := fr.loopSpec(fr.loops[h]); sp != nil && sp.Unroll > 0 {
+			fr.unrollK[h] = sp.Unroll
+		} else if sp == nil && fr.defaultUnroll() > 0 {
+			fr.unrollK[h] = fr.defaultUnroll()
 		}
-		var ins []inEdge
-		if blk == fn.Blocks[0] {
-			inReach, inSt = reach, st.clone()
-		} else {
-			for pi, p := range blk.Preds {
-				if isBack[[2]*ssa.BasicBlock{p, blk}] {
-					continue
-				}
-				pe := fr.out[p]
-				if pe == nil {
-					continue // unreachable predecessor (e.g. recover block)
-				}
-				er := b.And(pe.reach, fr.edgeCond(p, blk))
-				if isFalse(er) {
-					continue
-				}
-				ins = append(ins, inEdge{p, er, pe.st, pi})
-			}
-			if len(ins) == 0 {
-				continue // unreachable block
-			}
-			var rs []*Term
-			for _, e := range ins {
-				rs = append(rs, e.reach)
-			}
-			inReach = b.Name("reach_"+fmt.Sprint(blk.Index), b.Or(rs...))
-			// merge heaps
-			inSt = newState()
-			names := map[string]bool{}
-			for _, e := range ins {
-				for k := range e.st.heaps {
-					names[k] = true
-				}
-			}
-			for _, k := range sortedKeys(names) {
-				h := ins[len(ins)-1].st.heap(fr.cx, k)
-				for i := len(ins) - 2; i >= 0; i-- {
-					h = b.Ite(ins[i].reach, ins[i].st.heap(fr.cx, k), h)
-				}
-				inSt.set(k, b.Name(k, h))
-			}
-		}
-		fr.st, fr.reach = inSt, inReach
-
-		// phis
-		var phis []*ssa.Phi
-		for _, ins := range blk.Instrs {
-			if p, ok := ins.(*ssa.Phi); ok {
-				phis = append(phis, p)
-			} else {
-				break
-			}
-		}
-		if _, isHead := fr.loops[blk]; isHead {
-			if !fr.enterLoop(blk, phis, func(p *ssa.Phi) Val {
-				// value flowing in from outside the loop
-				var v *Term
-				var typ types.Type
-				for i := len(ins) - 1; i >= 0; i-- {
-					x := fr.val(p.Edges[ins[i].idx])
-					typ = x.typ
-					if v == nil {
-						v = x.t
-					} else {
-						v = b.Ite(ins[i].reach, x.t, v)
-					}
-				}
-				return Val{t: v, typ: typ}
-			}) {
-				continue
-			}
-		} else {
-			for _, p := range phis {
-				var v *Term
-				var fv *FuncVal
-				for i := len(ins) - 1; i >= 0; i-- {
-					x := fr.val(p.Edges[ins[i].idx])
-					if v == nil {
-						v = x.t
-						fv = x.fn
-					} else {
-						v = b.Ite(ins[i].reach, x.t, v)
-						if x.fn != fv {
-							fv = nil
-						}
-					}
-				}
-				fr.vals[p] = Val{t: b.Name(p.Name(), v), typ: p.Type(), fn: fv}
-			}
-		}
-
-		ended := false
-		for _, ins := range blk.Instrs[len(phis):] {
-			if isFalse(fr.reach) {
-				ended = true
-				break
-			}
-			if fr.exec(ins) {
-				ended = true
-				break
-			}
-		}
-		if ended {
-			continue
-		}
-		// block falls through to successors
-		fr.out[blk] = &blockEnd{st: fr.st, reach: fr.reach}
-		// back edges leaving this block
-		for _, s := range blk.Succs {
-			if isBack[[2]*ssa.BasicBlock{blk, s}] {
-				fr.backEdge(blk, s)
+	}
+	for h := range fr.unrollK {
+		for blk := range loopBlocks(h) {
+			// innermost unrolled loop containing blk
+			if cur, ok := fr.inUnrolled[blk]; !ok || len(loopBlocks(h)) < len(loopBlocks(cur)) {
+				fr.inUnrolled[blk] = h
 			}
 		}
 	}
+	fr.entrySt, fr.entryReach = st.clone(), reach
+	fr.execBlocks(order, nil)
 
 	// merge returns
 	if len(fr.rets) == 0 {
@@ -448,6 +364,308 @@ func (fr *Frame) run(st *State, reach *Term) ([]Val, *State, *Term) {
 		results[j] = Val{t: b.Name("ret_"+sanitize(fn.Name()), v), typ: last.results[j].typ, fn: fv}
 	}
 	return results, outSt, outReach
+}
+
+// defaultUnroll: bound for loops without any loop spec in a function marked `unroll N`.
+func (fr *Frame) defaultUnroll() int {
+	if bc := fr.eng().contractFor(fr.fn); bc != nil {
+		return bc.C.Unroll
+	}
+	return 0
+}
+
+// execBlocks executes the given blocks (in topological order). Blocks that belong
+// to an unrolled loop other than `inside` are handled by unroll().
+func (fr *Frame) execBlocks(blocks []*ssa.BasicBlock, inside *ssa.BasicBlock) {
+	for _, blk := range blocks {
+		owner := fr.inUnrolled[blk]
+		if owner != nil && owner != inside {
+			// block of a (nested) unrolled loop: executed by unroll() when its header comes up
+			if blk == owner || fr.outermostUnrolledBelow(blk, inside) == blk {
+				fr.unroll(fr.outermostUnrolledBelow(blk, inside))
+			}
+			continue
+		}
+		fr.execBlock(blk)
+	}
+}
+
+// outermostUnrolledBelow returns the header of the outermost unrolled loop that
+// contains blk and is strictly inside `inside` (nil: whole function).
+func (fr *Frame) outermostUnrolledBelow(blk, inside *ssa.BasicBlock) *ssa.BasicBlock {
+	var best *ssa.BasicBlock
+	bestSize := -1
+	for h := range fr.unrollK {
+		if h == inside {
+			continue
+		}
+		body := loopBlocks(h)
+		if !body[blk] {
+			continue
+		}
+		if inside != nil && !loopBlocks(inside)[h] {
+			continue
+		}
+		if len(body) > bestSize {
+			best, bestSize = h, len(body)
+		}
+	}
+	return best
+}
+
+// unroll executes the loop with header h iteration by iteration up to its bound.
+func (fr *Frame) unroll(h *ssa.BasicBlock) {
+	b := fr.b()
+	K := fr.unrollK[h]
+	body := loopBlocks(h)
+	var bodyOrder []*ssa.BasicBlock
+	for _, blk := range fr.order {
+		if body[blk] {
+			bodyOrder = append(bodyOrder, blk)
+		}
+	}
+	fr.cx.bounded = fmt.Sprintf("loops unrolled: at most %d evaluations of the loop condition per loop (inputs needing more are excluded)", K)
+	incoming := fr.edges[h]
+	savedBack := fr.pendingBack[h]
+	for iter := 0; ; iter++ {
+		if len(incoming) == 0 {
+			break
+		}
+		if iter >= K {
+			for _, e := range incoming {
+				fr.cx.assume(b.Not(e.reach))
+			}
+			break
+		}
+		for blk := range body {
+			if blk != h {
+				delete(fr.edges, blk)
+			}
+		}
+		fr.pendingBack[h] = nil
+		fr.edges[h] = incoming
+		fr.execBlocks(bodyOrder, h)
+		incoming = fr.pendingBack[h]
+	}
+	fr.pendingBack[h] = savedBack
+}
+
+// liveOut: values defined inside the loop body and used outside of it (other than by phis of exit targets).
+func (fr *Frame) liveOut(body map[*ssa.BasicBlock]bool) []ssa.Value {
+	var out []ssa.Value
+	for blk := range body {
+		for _, ins := range blk.Instrs {
+			v, ok := ins.(ssa.Value)
+			if !ok || v.Referrers() == nil {
+				continue
+			}
+			for _, ref := range *v.Referrers() {
+				if ref.Block() != nil && !body[ref.Block()] {
+					if _, isPhi := ref.(*ssa.Phi); !isPhi {
+						out = append(out, v)
+						break
+					}
+				}
+			}
+		}
+	}
+	return out
+}
+
+// finishBlock records the outgoing edges of a block that falls through.
+func (fr *Frame) finishBlock(blk *ssa.BasicBlock) {
+	b := fr.b()
+	for _, s := range blk.Succs {
+		er := b.And(fr.reach, fr.edgeCond(blk, s))
+		if isFalse(er) {
+			continue
+		}
+		pi := -1
+		for i, p := range s.Preds {
+			if p == blk {
+				pi = i
+			}
+		}
+		e := inEdge{pred: blk, reach: er, st: fr.st}
+		for _, ins := range s.Instrs {
+			p, ok := ins.(*ssa.Phi)
+			if !ok {
+				break
+			}
+			v := fr.val(p.Edges[pi])
+			e.phiVals = append(e.phiVals, v)
+		}
+		if fr.isBack[[2]*ssa.BasicBlock{blk, s}] {
+			if _, unrolled := fr.unrollK[s]; unrolled {
+				fr.pendingBack[s] = append(fr.pendingBack[s], e)
+			}
+			// invariant loops: handled by backEdge() from execBlock
+			continue
+		}
+		// leaving an unrolled loop: capture the loop-defined values used later
+		if h := fr.inUnrolled[blk]; h != nil && !loopBlocks(h)[s] {
+			e.live = map[ssa.Value]Val{}
+			for _, v := range fr.liveOut(loopBlocks(h)) {
+				if x, ok := fr.vals[v]; ok {
+					e.live[v] = x
+				}
+			}
+		}
+		fr.edges[s] = append(fr.edges[s], e)
+	}
+}
+
+// execBlock executes one basic block from the edges recorded for it.
+func (fr *Frame) execBlock(blk *ssa.BasicBlock) {
+	fn := fr.fn
+	b := fr.b()
+	var inReach *Term
+	var inSt *State
+	var ins []inEdge
+	if blk == fn.Blocks[0] {
+		inReach, inSt = fr.entryReach, fr.entrySt.clone()
+	} else {
+		ins = fr.edges[blk]
+		if len(ins) == 0 {
+			return // unreachable block
+		}
+		var rs []*Term
+		for _, e := range ins {
+			rs = append(rs, e.reach)
+		}
+		inReach = b.Name("reach_"+fmt.Sprint(blk.Index), b.Or(rs...))
+		// merge heaps
+		inSt = newState()
+		names := map[string]bool{}
+		for _, e := range ins {
+			for k := range e.st.heaps {
+				names[k] = true
+			}
+		}
+		for _, k := range sortedKeys(names) {
+			h := ins[len(ins)-1].st.heap(fr.cx, k)
+			for i := len(ins) - 2; i >= 0; i-- {
+				h = b.Ite(ins[i].reach, ins[i].st.heap(fr.cx, k), h)
+			}
+			inSt.set(k, b.Name(k, h))
+		}
+		// values that left an unrolled loop: merge over the exits
+		liveVals := map[ssa.Value]bool{}
+		for _, e := range ins {
+			for v := range e.live {
+				liveVals[v] = true
+			}
+		}
+		for v := range liveVals {
+			var t *Term
+			var typ types.Type
+			for i := len(ins) - 1; i >= 0; i-- {
+				x, ok := ins[i].live[v]
+				if !ok {
+					continue
+				}
+				typ = x.typ
+				if t == nil {
+					t = x.t
+				} else if x.t != nil {
+					t = b.Ite(ins[i].reach, x.t, t)
+				}
+			}
+			if t != nil {
+				fr.vals[v] = Val{t: t, typ: typ}
+			}
+		}
+	}
+	fr.st, fr.reach = inSt, inReach
+	// source-level names: what the immediate dominator knew, plus this block's phis
+	fr.localVars = map[string]Val{}
+	if idom := blk.Idom(); idom != nil {
+		for k, v := range fr.localsOut[idom] {
+			fr.localVars[k] = v
+		}
+	}
+
+	// phis
+	var phis []*ssa.Phi
+	for _, ins := range blk.Instrs {
+		if p, ok := ins.(*ssa.Phi); ok {
+			phis = append(phis, p)
+		} else {
+			break
+		}
+	}
+	phiMerge := func(pi int) Val {
+		var v *Term
+		var fv *FuncVal
+		var typ types.Type
+		for i := len(ins) - 1; i >= 0; i-- {
+			x := ins[i].phiVals[pi]
+			typ = x.typ
+			if v == nil {
+				v = x.t
+				fv = x.fn
+			} else {
+				v = b.Ite(ins[i].reach, x.t, v)
+				if x.fn != fv {
+					fv = nil
+				}
+			}
+		}
+		return Val{t: v, typ: typ, fn: fv}
+	}
+	_, isHead := fr.loops[blk]
+	_, isUnrolled := fr.unrollK[blk]
+	if isHead && !isUnrolled {
+		idxOf := map[*ssa.Phi]int{}
+		for i, p := range phis {
+			idxOf[p] = i
+		}
+		if !fr.enterLoop(blk, phis, func(p *ssa.Phi) Val { return phiMerge(idxOf[p]) }) {
+			return
+		}
+	} else {
+		for i, p := range phis {
+			m := phiMerge(i)
+			fr.vals[p] = Val{t: b.Name(p.Name(), m.t), typ: p.Type(), fn: m.fn}
+		}
+	}
+
+	for _, p := range phis {
+		if nm := phiSourceName(p); nm != "" && nm != "rangeindex" {
+			if v, ok := fr.vals[p]; ok {
+				fr.localVars[nm] = v
+			}
+		}
+	}
+	ended := false
+	for _, ins := range blk.Instrs[len(phis):] {
+		if isFalse(fr.reach) {
+			ended = true
+			break
+		}
+		if fr.exec(ins) {
+			ended = true
+			break
+		}
+	}
+	if fr.localsOut == nil {
+		fr.localsOut = map[*ssa.BasicBlock]map[string]Val{}
+	}
+	fr.localsOut[blk] = fr.localVars
+	if ended {
+		return
+	}
+	// block falls through to successors
+	fr.out[blk] = &blockEnd{st: fr.st, reach: fr.reach}
+	fr.finishBlock(blk)
+	// back edges of invariant loops leaving this block
+	for _, s := range blk.Succs {
+		if fr.isBack[[2]*ssa.BasicBlock{blk, s}] {
+			if _, unrolled := fr.unrollK[s]; !unrolled {
+				fr.backEdge(blk, s)
+			}
+		}
+	}
 }
 
 func (fr *Frame) edgeCond(p, s *ssa.BasicBlock) *Term {
@@ -592,6 +810,44 @@ func (fr *Frame) enterLoop(head *ssa.BasicBlock, phis []*ssa.Phi, outside func(*
 	for _, m := range ls.mods {
 		fr.cx.havocLoc(fr.st, m)
 	}
+	// objects created by make/append/map literals before the loop may have been written by
+	// earlier iterations: their cells are arbitrary at the head of an arbitrary iteration
+	if fr.cx.dynAlloc {
+		written := map[int]bool{}
+		for _, al := range fr.localsWrittenInLoop(head) {
+			if v, ok := fr.vals[al]; ok && v.t != nil {
+				if d := def(v.t); locCtor(d) == "New" {
+					var k int
+					fmt.Sscan(d.args[0].op, &k)
+					written[k] = true
+				}
+			}
+		}
+		var keepIDs []int
+		for k := range fr.cx.allocType {
+			if !written[k] {
+				keepIDs = append(keepIDs, k)
+			}
+		}
+		sort.Ints(keepIDs)
+		for _, hn := range sortedKeys(fr.w().heapSort) {
+			srt := fr.w().heapSort[hn]
+			if arrayKeySort(srt) != SLoc {
+				continue
+			}
+			h := fr.st.heap(fr.cx, hn)
+			nh := b.Const("lh_"+hn, srt)
+			ln := fmt.Sprintf("l?%d", fr.cx.nextBound())
+			l := b.BVar(ln, SLoc)
+			keep := []*Term{b.Not(fr.cx.rootIsNew(l))}
+			nid := b.mk("newId6", SInt, l)
+			for _, k := range keepIDs {
+				keep = append(keep, b.Eq(nid, b.Int(int64(k))))
+			}
+			fr.assume(b.Forall([]BoundVar{{ln, SLoc}}, b.Implies(b.Or(keep...), b.Eq(b.Select(nh, l), b.Select(h, l))), b.Select(nh, l)))
+			fr.st.set(hn, nh)
+		}
+	}
 	// local variables (allocations made before the loop) that the loop body writes or hands out
 	for _, al := range fr.localsWrittenInLoop(head) {
 		if v, ok := fr.vals[al]; ok && v.t != nil {
@@ -618,6 +874,10 @@ func (fr *Frame) enterLoop(head *ssa.BasicBlock, phis []*ssa.Phi, outside func(*
 					ks := fr.w().sortOf(it.mt.Key())
 					vh := fr.st.heap(fr.cx, it.visHeap)
 					fr.st.set(it.visHeap, b.Name(it.visHeap, b.Store(vh, it.vis, b.Const("visited", SArray(ks, SBool)))))
+					if it.cnt != nil {
+						ch := fr.w().heapName(SBV(64))
+						fr.st.set(ch, b.Name(ch, b.Store(fr.st.heap(fr.cx, ch), it.cnt, b.Const("produced", SBV(64)))))
+					}
 				}
 			}
 		}
@@ -626,6 +886,9 @@ func (fr *Frame) enterLoop(head *ssa.BasicBlock, phis []*ssa.Phi, outside func(*
 		s := fr.w().sortOf(p.Type())
 		v := Val{t: b.Const(p.Name()+"_"+phiSourceName(p), s), typ: p.Type(), fn: phiOutside[p].fn}
 		fr.assume(fr.cx.typeInv(v.t, p.Type()))
+		// a loop-carried value is either older than the loop or an object of an earlier
+		// iteration, never one of the objects this iteration is about to allocate
+		fr.assume(fr.cx.notFuture(v.t))
 		fr.vals[p] = v
 		ls.phis[p] = v
 	}
@@ -661,6 +924,8 @@ func (fr *Frame) enterLoop(head *ssa.BasicBlock, phis []*ssa.Phi, outside func(*
 			fr.assume(g)
 		}
 	}
+	sent := fr.cx.newObligation("cover", fmt.Sprintf("loop%d-body", ord), "the loop invariants and frame do not contradict each other", fr.pos(head.Instrs[0].Pos()), fr.reach, b.False(), fr.props())
+	sent.IsCover, sent.FullCover, sent.Trivial = true, true, false
 	return true
 }
 
